@@ -2,10 +2,11 @@ SPECIFICATION Spec
 CONSTANTS
   NMarkets = 5
   Conns <- Routes
-  KeyOffs = {0, 2}
+  KeyOffs = {2}
   PRICE = {6, 10}
-  AMOUNT = {5, 9}
-  TIME = {1, 2}
+  AMOUNT = {5}
+  TIME = {1}
+  DupKinds = {0, 1, 2}
   MaxBatch = 1
 INVARIANTS TypeOK KeysDistinct
 PROPERTIES Attribution RejectUnsubscribed FieldsPreserved Quiet
